@@ -29,6 +29,10 @@ type Doc struct {
 	// Override replaces computed numbers of the xref-stream serialisation by literal text:
 	// keys Size, Index (array text), N, First.
 	Override map[string]string
+	// PrologMutate, if set, may change the numbers of the object stream prolog (objNr offset pairs) before encoding.
+	PrologMutate func(nums []int, bodyLen int) []int
+	// RowsMutate, if set, may change the decoded cross-reference stream rows (type, field 2, field 3).
+	RowsMutate func(rows [][3]int) [][3]int
 }
 
 func New() *Doc { return &Doc{objs: map[int]*object{}, next: 1, Version: "1.7", Eol: "\n"} }
